@@ -296,7 +296,7 @@ func keyReason(s string) string {
 
 type c34Stats struct {
 	validAccepted, validRejected, selfCheckFailed int
-	provHanded, provTrustedWithheld              int
+	provHanded, provTrustedWithheld               int
 }
 
 // ---------------------------------------------------------------------------
